@@ -272,7 +272,7 @@ func (f *Frame) allocObl(reach, size string, el types.Type) {
 		return
 	}
 	bound := top.evalTerm(top.env(top.entrySt), top.fc.AllocBound)
-	f.addObl("alloc", "C07.alloc", reach, f.e.ile(size, bound), nil, nil, "")
+	f.addObl("alloc", "C06+C07.alloc", reach, f.e.ile(size, bound), nil, nil, "")
 }
 
 func (f *Frame) execUnOp(x *ssa.UnOp, reach string, st *State) {
